@@ -7,17 +7,23 @@ an Eups before (as every command-line invocation is), builds one Eups (the fromC
 path), performs its operations (each: database update ; ensureInSync ; in-memory write-through ; save of the
 invoking flavor's pickle) and may be killed by an injected os._exit right after (or right before) the k-th
 database call of one of its operations.  Cache files are deleted at arbitrary points.  Reader processes ask every
-query with noCache=False and noCache=True.
+query with noCache=False and noCache=True, for every flavor.
 
   case = {"procs": [proc, ...]}
-  proc = {"u": "u1"|"u2", "adm": bool, "f": flavor, "ops": [op, ...], "q": bool,
+  proc = {"u": "u1"|"u2", "f": flavor, "ops": [op, ...], "q": bool,
           "crash": None | {"op": i, "g": k, "when": "pre"|"post"}}
+       | {"u": user, "adm": True, "f": flavor, "ops": [], ...}   an administrator's load (persists into ups_db)
        | {"del": [loc, stack, flavor]}                      loc = "u1" | "u2" | "db"   (an outside deletion)
   op   = an operation of harness/c06.py  |  {"k": "DC", "loc": loc, "s": stack, "fl": flavor}
 
 After every process the modification times of all record and cache files are rewritten to the model's logical
 stamps (BASE + stamp seconds), so that no comparison depends on the granularity of the wall clock; which files a
 process touched is compared with the model before that.
+
+Compared with the model after every process: outcome of every operation (or the injected death), the set of
+record files, the set and the unpickled content of the cache files of both users and of ups_db, which files were
+touched, the flavors each loaded stack holds, and every answer (through the cache and from the files).
+Oracle (on the implementation alone): answers through the cache == answers from the files.
 """
 import json
 import multiprocessing
@@ -698,6 +704,9 @@ def shape(case):
     return "procs%02d-%02d/%s/users%d/crashes%d" % (np_ // 4 * 4, np_ // 4 * 4 + 3, "+".join(fl), len(us), min(cr, 3))
 
 
+KIND_SHRUNK = {}
+
+
 def process(ctx, results, budget=[6]):
     for c, m, o, dis, orc in results:
         nops = sum(len(p.get("ops", [])) + 1 for p in c["procs"])
@@ -713,25 +722,24 @@ def process(ctx, results, budget=[6]):
         if dis is None:
             ctx.traces_validated += 1
         else:
-            cc = c
+            cc, d2 = c, dis
             if budget[0] > 0:
                 budget[0] -= 1
                 cc = shrink(ctx, c, lambda x: evaluate(ctx, [x])[0][3] is not None)
-            r = evaluate(ctx, [cc])[0]
-            d2 = r[3] or dis
+                d2 = evaluate(ctx, [cc])[0][3] or dis
             ctx.disagree(cc, {"at": d2[0], "field": d2[1], "value": d2[2]}, {"at": d2[0], "field": d2[1], "value": d2[3]},
                          where="process %d, %s" % (d2[0], d2[1]))
         if orc is not None:
-            cc = c
+            cc, r = c, orc
             kind = orc[1]
-            if budget[0] > 0:
-                budget[0] -= 1
+            if budget[0] > 0 and KIND_SHRUNK.get(kind, 0) < 2:       # two shrunk witnesses per clause are enough
+                KIND_SHRUNK[kind] = KIND_SHRUNK.get(kind, 0) + 1
 
                 def bad(x, kind=kind):
                     r = evaluate(ctx, [x])[0][4]
                     return r is not None and r[1] == kind
                 cc = shrink(ctx, c, bad)
-            r = evaluate(ctx, [cc])[0][4] or orc
+                r = evaluate(ctx, [cc])[0][4] or orc
             cc = {"procs": cc["procs"][:r[0] + 1]}
             ctx.fail(r[1], cc, expected=r[2], observed=r[3],
                      what="process %d (a reader in a new process): the answers through the cache differ from the "
@@ -772,7 +780,9 @@ def configure(ctx):
         "with equal stamps the property is false (coherent_refuted_coarse_clock)",
         "processes run one after the other (the commands hold the C09 locks); two live Eups instances of different "
         "users that interleave their updates are outside the model",
-        "queries are asked for flavors of the instance's fall-back list (invoking flavor, generic)",
+        "the theorem is about queries for flavors the asking instance consults (its own flavor and the fall-back "
+        "generic); queries about any other flavor are asked as well, compared with the model, and their incoherence is "
+        "the open finding matched by c07.unconsulted_flavor",
         "global tags only; no user tags (the user tag directory holds no chain files); _EUPS_ASSUME_CACHES_UP_TO_DATE unset",
         "a process dies only between two groups or between the database call of a group and its cache update "
         "(death inside the database call is C08)"]
